@@ -584,7 +584,10 @@ def generate(ctx):
             elif t < 0.85 or not known:
                 ops.append({"npartitions": rng.randint(1, 9)})
             else:
-                ops.append({"divisions": _rand_new_divs(rng, divs, False)})
+                b = _rand_new_divs(rng, divs, False)
+                if b[0] != divs[0] or b[-1] != divs[-1] or b != sorted(b) or len(set(b[:-1])) != len(b[:-1]):
+                    b = [divs[0], divs[-1]] if divs[0] < divs[-1] else list(divs)   # (mismatching ends are rejected lazily)
+                ops.append({"divisions": b})
         yield "joint", {"parts": keys, "divs": divs, "ops": ops}
     # partition counts whose ratio is not exactly representable (15->11, 26->23, 30->11 ...): API level
     hard = [(o, n) for o in range(2, 41) for n in range(1, o) if int(n * (o / n)) != o or [int(i * (o / n)) for i in range(n + 1)] != [i * o // n for i in range(n + 1)]]
